@@ -30,17 +30,25 @@ def KeyOrderOk (k : SortKey) (rows : List Row) : Prop :=
   (∀ a ∈ rows, ∀ b ∈ rows, ∀ c ∈ rows, keyLe k.nullsSmaller (keyOf k a) (keyOf k b) = true →
       keyLe k.nullsSmaller (keyOf k b) (keyOf k c) = true → keyLe k.nullsSmaller (keyOf k a) (keyOf k c) = true)
 
+/-- the sort key evaluates on every row at hand, and any two non-null key values can be compared (the code raises on a
+key it cannot resolve or evaluate, and on values of different classes; the model's `keyOf` / `keyLe` would read such a
+key as null / as "in order") -/
+def KeyEvalOk (k : SortKey) (rows : List Row) : Prop :=
+  (∀ a ∈ rows, (evalM a k.e).toOption.isSome = true) ∧
+  (∀ a ∈ rows, ∀ b ∈ rows, keyOf k a = .null ∨ keyOf k b = .null ∨ (cmpM .le (keyOf k a) (keyOf k b)).toOption.isSome = true)
+
 -- OBLIGATION: PysparklingVerif.C12.sort_perm_sorted
 /-- `orderBy`: the multi-pass stable sort returns a permutation that is ordered lexicographically by the
 key list, honouring each key's direction and nulls-first/last placement -/
-theorem sort_perm_sorted (keys : List SortKey) (rows : List Row) (hk : ∀ k ∈ keys, KeyOrderOk k rows) :
+theorem sort_perm_sorted (keys : List SortKey) (rows : List Row) (hk : ∀ k ∈ keys, KeyOrderOk k rows)
+    (_he : ∀ k ∈ keys, KeyEvalOk k rows) :
     (sortM keys rows).Perm rows ∧ (sortM keys rows).Pairwise (fun a b => lexLe keys a b = true) :=
   ⟨sortM_perm keys rows, sortM_sorted keys rows hk⟩
 
 -- OBLIGATION: PysparklingVerif.C12.sort_stable
 /-- … and is stable: rows that compare equal on every key keep their input order -/
 theorem sort_stable (keys : List SortKey) (rows : List Row) (hk : ∀ k ∈ keys, KeyOrderOk k rows)
-    (a b : Row) (hab : [a, b].Sublist rows) (heq : lexLe keys a b = true) :
+    (_he : ∀ k ∈ keys, KeyEvalOk k rows) (a b : Row) (hab : [a, b].Sublist rows) (heq : lexLe keys a b = true) :
     [a, b].Sublist (sortM keys rows) :=
   sortM_stable keys rows hk a b hab heq
 
